@@ -1001,6 +1001,30 @@ impl Schedule {
         self.update_tour_and_costs(tours, dummy_tours, costs, receiver, new_tour_receiver);
         self.update_depot_usage(depot_usage, vehicles, tours, receiver);
 
+        // A segment that starts at the provider's start depot hands that depot to the receiver. The
+        // depot must have room for a vehicle of the receiver's type (a vanished provider has
+        // released its place above).
+        if let Some(receiver_vehicle) = self.vehicles.get(&receiver) {
+            let new_start_depot = tours.get(&receiver).unwrap().start_depot().unwrap();
+            if new_start_depot != self.tours.get(&receiver).unwrap().start_depot().unwrap() {
+                let depot = self.network.get_depot_idx(new_start_depot);
+                let receiver_type = receiver_vehicle.type_idx();
+                if self.number_of_vehicles_of_same_type_spawned_at_custom_usage(
+                    depot,
+                    receiver_type,
+                    depot_usage,
+                ) > self.network.capacity_of(depot, receiver_type)
+                    || self.number_of_vehicles_spawned_at_custom_usage(depot, depot_usage)
+                        > self.network.total_capacity_of(depot)
+                {
+                    return Err(format!(
+                        "Cannot move the start depot {} to vehicle {}. The depot has no capacity left for its vehicle type.",
+                        new_start_depot, receiver,
+                    ));
+                }
+            }
+        }
+
         // update train_formations
         let receiver_vehicle = self.vehicles.get(&receiver).cloned();
         self.update_train_formation(
